@@ -38,7 +38,7 @@ func runC08(t *simrt.Tape, o Opts) Outcome {
 		w = world.New(s, "C08")
 		st.Oracle = map[string]int{}
 		async := t.Choose(scale(o, 12, 5), "async") == 1
-		gen := world.GenOpts{ForceCache: true, SmallCaps: true, NoSimple: t.Choose(4, "allowsimple") != 0, AllowTinyLFU: allowTinyLFU}
+		gen := world.GenOpts{ForceCache: t.Choose(4, "any-cachemode") != 0, SmallCaps: true, NoSimple: t.Choose(4, "allowsimple") != 0, AllowTinyLFU: allowTinyLFU}
 		pol := world.GenPolicy(t, gen)
 		pol.Precision = []time.Duration{time.Second, time.Minute}[t.Choose(2, "prec")]
 		nparts := 2 + t.Choose(7, "nparts")
